@@ -70,3 +70,27 @@ def open_prefixes(t, max_open=2, include_root=False):
             for p in combo:
                 r = open_at(r, p)
             yield r, combo
+
+
+def partial_trees(cg, nt, depth, max_nodes):
+    """All trees of nt in which every nonterminal node is either open or expanded by one alternative,
+    expansion depth <= depth, node count <= max_nodes, at least one open leaf (the trivial open node included)."""
+    def rec(X, d):
+        res = [(X, None)]
+        if d == 0:
+            return res
+        for alt in cg[X]:
+            if not alt:
+                res.append((X, (("", ()),)))
+                continue
+            opts = [rec(s, d - 1) if is_nt(s) else [(s, ())] for s in alt]
+            for combo in itertools.product(*opts):
+                t = (X, tuple(combo))
+                if size(t) <= max_nodes:
+                    res.append(t)
+        return res
+
+    def has_open(t):
+        return t[1] is None or any(has_open(c) for c in t[1])
+
+    return [t for t in rec(nt, depth) if has_open(t)]
